@@ -199,11 +199,7 @@ func runSite(line, variantF, itemsF string) core.Outcome {
 			What: fmt.Sprintf("a directive of the site block does not appear in the JSON (found %s of %d); input %q", idxField(ord), len(items), clip(text, 600))})
 		return o
 	}
-	if len(items) > 20 {
-		o.Impl = "over20"
-	} else {
-		o.Impl = "ok " + idxField(ord)
-	}
+	o.Impl = "ok " + idxField(ord)
 	kinds := map[string]bool{}
 	for _, it := range items {
 		kinds[kindName(it.dir)] = true
@@ -230,11 +226,15 @@ func runSite(line, variantF, itemsF string) core.Outcome {
 		text2 := ":8080 {\n" + strings.Join(append(defs, out...), "\n") + "\n}\n"
 		r2 := adaptText(text2)
 		if r2.verdict() != "json" || normalizeMarkers(r2.json) != normalizeMarkers(r.json) {
-			o.Failures = append(o.Failures, core.Failure{Case: line, Class: "order-dependent-output",
+			cls := "order-dependent-output"
+			if len(items) > 20 {
+				cls += ":over-20-routes"
+			}
+			o.Failures = append(o.Failures, core.Failure{Case: line, Class: cls,
 				What: fmt.Sprintf("reordering directives of different kinds changed the result: %q vs %q: %s", clip(text, 500), clip(text2, 500), firstDiff(r.json, r2.json))})
 		}
 	}
-	checkValid(line, text, r.json, &o)
+	checkValid(line, text, r.json, false, &o)
 	return o
 }
 
